@@ -160,3 +160,63 @@ package hessian
 //@   readonlyuse (*bytes.Buffer).Write, io.Writer.Write, github.com/vogo/logger.Logger.Debugf, builtin:len, builtin:cap
 //@   fieldwriters objectPool.cached newPool
 //@   fieldwriters objectPool.factory newPool
+
+// ---------------------------------------------------------------- strings and byte arrays (C09)
+
+//@ func encodeString
+//@   pure
+//@   loop 1 invariant [C09:str-chunk-bounds] 0 <= begin && begin + length == len(dataBys) && begin & 2047 == 0 && length >= 1
+//@   loop 1 invariant [C09:str-chunk-stream] bufof(byteBuf) == G.strChunksTo(runes(value), begin)
+//@   loop 1 decreases length
+//@   ensures [C09,C02:str-empty-null]        value == "" ==> len(result) == 1 && result[0] == 'N'
+//@   ensures [C09,C02,C01:str-production]   value != "" ==> streamOf(result) == G.strProd(runes(value))
+
+//@ func encodeBinary
+//@   pure
+//@   loop 1 invariant [C09:bin-chunk-bounds] 0 <= begin && begin + length == len(value) && begin & 4095 == 0 && length >= 1
+//@   loop 1 invariant [C09:bin-chunk-stream] bufof(byteBuf) == G.binChunksTo(value, begin)
+//@   loop 1 decreases length
+//@   ensures [C09,C02:bin-empty]            len(value) == 0 ==> len(result) == 1 && result[0] == 0x20
+//@   ensures [C09,C02,C01:bin-production]   len(value) != 0 ==> streamOf(result) == G.binProd(value)
+
+// ---------------------------------------------------------------- encoder: fail-stop flags (C13 @E, C15 @W)
+// @W becomes true when any Write returns an error or a short count; @E when an
+// error value is created.  Every encoder function must turn either into a
+// non-nil error of its own.
+
+//@ func (*Encoder).writeBT
+//@   assigns @out, @W, @nwrites
+//@   ensures [C15:W] (@W && !old(@W)) ==> err != nil
+
+//@ func (*Encoder).writeBytes
+//@   assigns @out, @W, @nwrites
+//@   ensures [C15:W] (@W && !old(@W)) ==> err != nil
+
+//@ func (*Encoder).writeInt
+//@   assigns @out, @W, @nwrites
+//@   ensures [C15:W] (@W && !old(@W)) ==> err != nil
+
+//@ func (*Encoder).writeLong
+//@   assigns @out, @W, @nwrites
+//@   ensures [C15:W] (@W && !old(@W)) ==> err != nil
+
+//@ func (*Encoder).writeDouble
+//@   assigns @out, @W, @E, @nwrites
+//@   ensures [C15:W] (@W && !old(@W)) ==> err != nil
+//@   ensures [C13:E] (@E && !old(@E)) ==> err != nil
+
+//@ func (*Encoder).writeBoolean
+//@   assigns @out, @W, @nwrites
+//@   ensures [C15:W] (@W && !old(@W)) ==> err != nil
+
+//@ func (*Encoder).writeBinary
+//@   assigns @out, @W, @nwrites
+//@   ensures [C15:W] (@W && !old(@W)) ==> err != nil
+
+//@ func (*Encoder).writeString
+//@   assigns @out, @W, @nwrites
+//@   ensures [C15:W] (@W && !old(@W)) ==> err != nil
+
+//@ func (*Encoder).writeRef
+//@   assigns @out, @W, @nwrites
+//@   ensures [C15:W] (@W && !old(@W)) ==> err != nil
